@@ -48,6 +48,7 @@ func Quiet() { logger.SetStdOut(io.Discard) }
 type Options struct {
 	Service    bool // profile has a Service block (t.Service != nil)
 	SendLogs   bool
+	OtherFlags bool // --debug, --debug-dev, --verbose, --default all switched on
 	TrustXFF   bool
 	HTTPConfig *handlers.HTTPConfig
 	Operators  []profile.UsersBlock
@@ -98,6 +99,9 @@ func New(o Options) *TS {
 		Demon:     &profile.Demon{Sleep: 2, Jitter: 15, TrustXForwardedFor: o.TrustXFF},
 	}}
 	t.Flags.Server.SendLogs = o.SendLogs
+	if o.OtherFlags {
+		t.Flags.Server.Debug, t.Flags.Server.DebugDev, t.Flags.Server.Verbose, t.Flags.Server.Default = true, true, true, true
+	}
 	// Start() always creates the webhook object (without a Discord URL it posts nothing):
 	// AgentAdd then serialises every new session with ToMap, as in the running server
 	t.WebHooks = webhook.NewWebHook()
